@@ -474,18 +474,10 @@ func checkFetchersValidate(c *Ctx, rule string) {
 		}
 		// the range asked of the getter is the range asked of the function it delegates to
 		okRange := true
-		for _, pn := range []string{"start", "limit"} {
-			var gp, hp *ssa.Parameter
-			for _, p := range fn.Params {
-				if p.Name() == pn {
-					gp = p
-				}
-			}
-			for _, p := range h.Params {
-				if p.Name() == pn {
-					hp = p
-				}
-			}
+		gs, gl := rangeParams(fn)
+		hs, hl := rangeParams(h)
+		for _, pr := range [][2]*ssa.Parameter{{gs, hs}, {gl, hl}} {
+			gp, hp := pr[0], pr[1]
 			if gp == nil || hp == nil || paramIndex(hp) >= len(inner.Call.Args) || stripConv(inner.Call.Args[paramIndex(hp)]) != ssa.Value(gp) {
 				okRange = false
 			}
@@ -495,15 +487,7 @@ func checkFetchersValidate(c *Ctx, rule string) {
 		}
 	}
 	for _, fn := range getters {
-		var pStart, pLimit *ssa.Parameter
-		for _, p := range fn.Params {
-			switch p.Name() {
-			case "start":
-				pStart = p
-			case "limit":
-				pLimit = p
-			}
-		}
+		pStart, pLimit := rangeParams(fn)
 		n := 0
 		for _, r := range returnsOf(fn) {
 			vals := returnValues(r)
@@ -545,14 +529,9 @@ func checkFetchersValidate(c *Ctx, rule string) {
 }
 
 func checkValidate(c *Ctx, v *ssa.Function, rule string) {
-	var blocks, pStart, pLimit *ssa.Parameter
+	var blocks *ssa.Parameter
+	pStart, pLimit := rangeParams(v)
 	for _, p := range v.Params {
-		switch {
-		case p.Name() == "start":
-			pStart = p
-		case p.Name() == "limit":
-			pLimit = p
-		}
 		if sl, ok := p.Type().Underlying().(*types.Slice); ok && repoNamedIs(sl.Elem(), "eth", "Block") {
 			blocks = p
 		}
